@@ -82,13 +82,13 @@ def SD_PreGER(
 
         if method == "per":
             # noverlap = nxseg*pov
-            freq, Sy_allref = SD_est(Y_all, Y_ref, dt, nxseg, method)
-            _, Sy_allmov = SD_est(Y_all, Y_mov, dt, nxseg, method)
+            freq, Sy_allref = SD_est(Y_all, Y_ref, dt, nxseg, method, pov=pov)
+            _, Sy_allmov = SD_est(Y_all, Y_mov, dt, nxseg, method, pov=pov)
             Gyy.append(np.hstack((Sy_allref, Sy_allmov)))
 
         elif method == "cor":
-            freq, Sy_allref = SD_est(Y_all, Y_ref, dt, nxseg, method)
-            _, Sy_allmov = SD_est(Y_all, Y_mov, dt, nxseg, method)
+            freq, Sy_allref = SD_est(Y_all, Y_ref, dt, nxseg, method, pov=pov)
+            _, Sy_allmov = SD_est(Y_all, Y_mov, dt, nxseg, method, pov=pov)
             Gyy.append(np.hstack((Sy_allref, Sy_allmov)))
         logger.debug("... Done with setup nr.: %s!", ii)
 
